@@ -148,6 +148,7 @@ def thorough_selftest(prop, repo, rep):
                                 reported=r.get('fired', {}).get(prop, [])[:3]))
     rep.extra['mutant_selftest'] = summary
     rep.extra['mutant_samples'] = samples
+    rep.extra['anchored_mutation_sweep'] = anchored_sweep(prop, repo, anchors)
     for mid in summary['missed']:
         print(f'SELFTEST-WARNING property={prop}: breaking mutant {mid} was not reported (sensitivity gap; verdict on the tree unaffected)')
     for mid in summary['false_alarms'] + summary['overreported']:
@@ -155,6 +156,68 @@ def thorough_selftest(prop, repo, rep):
     print(f"{prop}: thorough self-test: {summary['detected']} breaking mutants/seeds detected, {len(summary['missed'])} missed, "
           f"{summary['equivalent_silent']} negative controls silent, {len(summary['false_alarms'])} false alarms, "
           f"{len(summary['known_limit_alarms'])} alarms on documented-limit refactorings, {len(summary['skipped'])} skipped")
+
+
+def _eval_sweep(args):
+    m, repo, prop = args
+    import shutil
+    from . import mutate
+    d = mutate.make_copy(repo)
+    try:
+        with open(os.path.join(d, m['file']), 'w') as f:
+            f.write(m['content'])
+        res = mutate.run_props(d, [prop])
+        code, keys = res[prop]
+        elsewhere = []
+        if code == 0:
+            # not reported by this property's check: is it reported by the check of another property?
+            from . import props as P
+            others = mutate.run_props(d, [q for q in sorted(P.PROPS) if q != prop])
+            elsewhere = sorted(q for q, (c, _) in others.items() if c == 1)
+        return dict(id=m['id'], file=m['file'], line=m['line'], op=m['op'], old=m['old'], new=m['new'], text=m['text'],
+                    status={0: 'survived', 1: 'reported', 2: 'no-compile'}[code], keys=keys[:3], elsewhere=elsewhere)
+    finally:
+        shutil.rmtree(d, ignore_errors=True)
+
+
+def anchored_sweep(prop, repo, anchors):
+    """thorough tier, part 2: every single-token mutant (sa/sweep.py) of the files this property is anchored in, run against
+    this property's check on a scratch copy.  Reported mutants measure sensitivity; survivors are matched against the
+    hand-triaged list mutants/sweep_triage.json (equivalent edit / does not concern this property); untriaged survivors
+    are listed in the evidence.  Never changes the verdict on the tree itself."""
+    from . import sweep
+    from concurrent.futures import ProcessPoolExecutor
+    muts = sweep.enumerate_mutants(repo, sorted(anchors))
+    with ProcessPoolExecutor(max_workers=12) as ex:
+        res = list(ex.map(_eval_sweep, [(m, repo, prop) for m in muts], chunksize=2))
+    triage = {}
+    tp = os.path.join(VERIF, 'mutants', 'sweep_triage.json')
+    if os.path.exists(tp):
+        triage = json.load(open(tp))
+    comp = [r for r in res if r['status'] != 'no-compile']
+    rep_ = [r for r in comp if r['status'] == 'reported']
+    surv = [r for r in comp if r['status'] == 'survived']
+    tri, untri, other = [], [], []
+    for r in surv:
+        t = triage.get(r['id'])
+        if r.get('elsewhere'):
+            other.append(r)     # the edit is in a part of the file that another property's clauses cover
+        elif t:
+            tri.append(r)
+        else:
+            untri.append(r)
+    out = dict(files=sorted(anchors), mutants=len(res), compiling=len(comp), reported=len(rep_), survived=len(surv),
+               reported_by_another_property=len(other), survived_triaged=len(tri),
+               triaged=[f"{r['file']}:{r['line']} {r['old']!r}->{r['new']!r}: {triage[r['id']].get('verdict')}: {triage[r['id']].get('reason', '')[:120]}" for r in tri][:40],
+               untriaged_survivors=[f"{r['file']}:{r['line']} [{r['op']}] {r['old']!r}->{r['new']!r} :: {r['text'][:90]}" for r in untri][:60],
+               by_operator={})
+    for r in comp:
+        o = out['by_operator'].setdefault(r['op'], dict(reported=0, survived=0))
+        o['reported' if r['status'] == 'reported' else 'survived'] += 1
+    print(f"{prop}: anchored mutation sweep: {len(comp)} compiling single-token mutants in {len(anchors)} anchored file(s): "
+          f"{len(rep_)} reported by this check, {len(other)} only by another property's check, {len(tri)} survive every check and are triaged "
+          f"(equivalent / not a property violation), {len(untri)} survive every check untriaged")
+    return out
 
 
 def explain(prop, path):
